@@ -346,6 +346,9 @@ func (bm *blockMetadata) unmarshal(src []byte) ([]byte, error) {
 	src, n = encoding.BytesToVarUint64(src)
 	tagBlocksCount := n
 
+	// The receiver is reused across blocks (unmarshalBlockMetadata grows the slice in place):
+	// entries of the previous block must not survive in a block that lacks those tags.
+	clear(bm.tagsBlocks)
 	if tagBlocksCount > 0 {
 		if bm.tagsBlocks == nil {
 			bm.tagsBlocks = make(map[string]dataBlock, tagBlocksCount)
